@@ -378,6 +378,32 @@ def oracle_stop_barrier(tr, scripts):
     return v
 
 
+def oracle_live_ops(tr, scripts):
+    """an operation on an actor that is running and was never asked to stop does not fail: call / ping are answered,
+    stop / restart are accepted (they never wait for, or are refused for lack of, mailbox space)"""
+    v = []
+    ops = _ops(tr)
+    trouble = next((i for i, e in enumerate(tr) if e[0] in ('task_killed', 'task_panicked', 'user_panic', 'user_abandoned', 'panic')
+                    or (e[0] == 'task_done' and e[1] == 'loop')
+                    or (e[0] == 'chan_pop' and str(e[2]) in ('Stop', 'closed'))
+                    or (e[0] == 'script_result' and e[1] in ('ctx.stop',))), None)
+    first_stop = min([o['begin'] for o in ops if o['kind'] in ('stop', 'halt', 'try_stop', 'drop', 'consume', 'detach')], default=None)
+    for o in ops:
+        if o['kind'] not in ('call', 'ping', 'stop', 'restart') or o['end'] is None:
+            continue
+        res = str(o['result'])
+        if res.startswith('Ok'):
+            continue
+        if trouble is not None and trouble < o['end']:
+            continue
+        if first_stop is not None and first_stop < o['end'] and o['kind'] in ('call', 'ping'):
+            continue
+        if first_stop is not None and first_stop < o['begin']:
+            continue
+        v.append(f"{o['kind']} on a running actor that nobody had stopped returned {res}")
+    return v
+
+
 def oracle_backpressure(tr, cap, scripts, want_counts=False):
     """C12: at every moment #(waiting sends that returned Ok) - #(of those already taken out of the mailbox) <= n;
     on an unbounded mailbox a send never waits (returns at its first poll).  A message is taken out of the mailbox in
